@@ -239,6 +239,7 @@ pub fn check_case(c: &Case, flag_sets: &[&[&str]], st: &mut VStats, fails: &mut 
         let what = format!("anthem verify {} : {input_desc}", all.join(" "));
         let (rc, err, problems) = match run_verify(&all, &files) { Ok(x) => x, Err(e) => { fails.push(Failure { property: "harness", input: what, detail: e }); return; } };
         if rc != 0 {
+            if rc == crate::simp::TIMED_OUT { fails.push(Failure { property: "C18", input: what.clone(), detail: "anthem verify does not end (no result after 30 s; the process was killed)".into() }); }
             let panicked = rc == 101 || err.contains("panicked at");
             if !panicked && problems.is_empty() && c.outline.is_some_and(|o| REFUSABLE.contains(&o)) { continue; }
             fails.push(Failure { property: if panicked { "C16" } else { "C02" }, input: what.clone(), detail: format!("the task is within the accepted class but anthem exits with {rc} and {} problems: {}", problems.len(), err.lines().take(3).collect::<Vec<_>>().join(" / ")) });
@@ -405,8 +406,8 @@ pub fn check_case(c: &Case, flag_sets: &[&[&str]], st: &mut VStats, fails: &mut 
         for (x, y, dir) in [(a0, a1, "forward"), (b0, b1, "backward")] {
             let both = !(f0.contains(dir_other(dir)) || f1.contains(dir_other(dir)));
             if !both { continue; }
-            if let Some(k) = (0..x.len()).find(|k| x[*k] != y[*k]) {
-                fails.push(Failure { property: "C19", input: format!("anthem verify --equivalence external : {input_desc}"), detail: format!("flags `{f0}` and `{f1}` disagree on {{{}}}: {dir} problems refuted {} vs {}", show(&i0[k]), x[k], y[k]) });
+            if let Some(k) = (0..x.len().min(y.len())).find(|k| x[*k] != y[*k]) {
+                fails.push(Failure { property: "C19", input: format!("anthem verify --equivalence external : {input_desc}"), detail: format!("flags `{f0}` and `{f1}` disagree on {{{}}}: {dir} problems refuted {} vs {}", show(&i0[k % i0.len().max(1)]), x[k], y[k]) });
             }
         }
     }
